@@ -390,7 +390,7 @@ theorem dictDel_sub {t : Table} {ca : Nat} : ∀ p ∈ dictDel t ca, p ∈ t := 
       · exact Or.inr (ih p hp)
 
 def SOp.quiet : SOp → Bool
-  | .close | .reopen => false
+  | .close | .reopen | .closeix _ | .closeall => false
   | _ => true
 
 theorem step_good {s : Server} (hr : Gen.Tcp.recvLoopCatchesOSError = true)
@@ -412,6 +412,36 @@ theorem step_good {s : Server} (hr : Gen.Tcp.recvLoopCatchesOSError = true)
     · exact ⟨h.listening, fun p hp => h.ix p (dictDel_sub p hp), h.cx, h.plain⟩
   | close => cases hq
   | reopen => cases hq
+  | closeix ca => cases hq
+  | closeall => cases hq
+  | rxix ca =>
+    simp only [Server.step]
+    split
+    · exact h
+    · rename_i r hr
+      have hg : GoodRem r := by
+        have : ∀ (t : Table), dictGet t ca = some r → (∀ p ∈ t, GoodRem p.2) → GoodRem r := by
+          intro t
+          induction t with
+          | nil => intro h0; simp [dictGet] at h0
+          | cons kv rest ih =>
+            obtain ⟨k, v⟩ := kv
+            intro h0 hall
+            unfold dictGet at h0
+            split at h0
+            · cases h0; exact hall (k, r) (by simp)
+            · exact ih h0 (fun p hp => hall p (by simp [hp]))
+        exact this s.ixes hr h.ix
+      have hsp := Rem.serviceReceives_spec r hg
+      generalize r.serviceReceives = res at hsp
+      obtain ⟨r', e⟩ := res
+      cases e with
+      | none => exact ⟨h.listening, mapKey_all (f := fun _ => r') h.ix (fun _ _ => hsp.2), h.cx, h.plain⟩
+      | some e =>
+        simp only
+        split
+        · exact ⟨h.listening, fun p hp => h.ix p (dictDel_sub p hp), h.cx, h.plain⟩
+        · exact ⟨h.listening, mapKey_all (f := fun _ => r') h.ix (fun _ _ => hsp.2), h.cx, h.plain⟩
 
 theorem run_good (hr : Gen.Tcp.recvLoopCatchesOSError = true) (hs : Gen.Tcp.sendLoopCatchesOSError = true)
     (ops : List SOp) : ∀ {s : Server}, (∀ op ∈ ops, op.quiet = true) → GoodSrv s → GoodSrv (s.run ops) := by
@@ -511,6 +541,22 @@ theorem step_ok (c : Conn) (op : Op) (hb : Benign c) : (step c op).2 = none ∧ 
   cases op with
   | tx d => exact ⟨rfl, ⟨hb.safe, hb.s, hb.r⟩⟩
   | rst => exact ⟨rfl, ⟨hb.safe, hb.s, hb.r⟩⟩
+  | clr => exact ⟨rfl, ⟨hb.safe, hb.s, hb.r⟩⟩
+  | sro =>
+    simp only [step]
+    unfold serviceReceiveOnce
+    split
+    · split
+      · exact recvFault_ok c _ (wb_ok c.kind).2 hb
+      · rename_i code rest hr
+        exact recvFault_ok { c with recvs := rest } code (hb.r (.fault code) (by rw [hr]; simp))
+          ⟨hb.safe, hb.s, fun x hx => hb.r x (by rw [hr]; simp [hx])⟩
+      · rename_i d rest hr
+        split
+        · exact ⟨rfl, ⟨hb.safe, hb.s, fun x hx => hb.r x (by rw [hr]; simp [hx])⟩⟩
+        · simp only [hb.safe.rx, Bool.false_eq_true, ↓reduceIte]
+          exact ⟨trivial, ⟨hb.safe, hb.s, fun x hx => hb.r x (by rw [hr]; simp [hx])⟩⟩
+    · exact ⟨rfl, hb⟩
   | ss => exact serviceSends_ok c hb
   | sr => exact serviceReceives_ok c hb
   | svc =>
